@@ -519,10 +519,14 @@ def _strip_returns(cfg, r):
     """rebuild file contents from the return-free IRs"""
     for k, kd in cfg["kinds"].items():
         for f in kd["files"]:
+            b, a = f.get("before", ""), f.get("after", "")
             if f["prestate"] in ("truth", "agreeing"):
-                f["content"] = projgen.render(k, cfg["ir"], kd["name"], kd["method"])
+                f["content"] = projgen.render(k, cfg["ir"], kd["name"], kd["method"], b, a)
             elif f["prestate"] == "stale":
-                f["content"] = projgen.render(k, cfg["stale_ir"], kd["name"], kd["method"])
+                f["content"] = projgen.render(k, cfg["stale_ir"], kd["name"], kd["method"], b, a)
+            elif f["prestate"] == "near":
+                f["near_ir"]["returns"] = None
+                f["content"] = projgen.render(k, f["near_ir"], kd["name"], kd["method"], b, a)
     return cfg
 
 
